@@ -1093,7 +1093,7 @@ class TorConfig:
                     except KeyError:
                         default_key = '__{}'.format(name[:-5])
                         default = yield self.protocol.get_conf_single(default_key)
-                        if not default:
+                        if not default or default == DEFAULT_VALUE:
                             initial = []
                         else:
                             initial = [default]
